@@ -8,11 +8,12 @@
     holds the same entry afterwards (directory and link timestamps exempt, as
     in [store_eqv]); in particular when the transaction put a symlink pointing
     at such an entry in the place of a tracked file or directory.  Law level
-    (any two filesystems satisfying the laws), then closed for the generic
-    layering of the correspondence check.  Partial w.r.t. the property text in
+    (any two filesystems satisfying the laws), then closed for the three
+    layerings of the correspondence check (generic, documented, New/NewWithFS).  Partial w.r.t. the property text in
     the same way as C01: states reached within [covered]/[kind_stable]. *)
 From stdpp Require Import gmap.
 From BFS Require Import Spec.CopySpecs Spec.ViewOsfs Proofs.BackupRollback Proofs.LawsOsfs Proofs.RollbackUntracked.
+From BFS Require Import Spec.ViewHidden Spec.ViewRoot.
 
 Theorem C13_rollback_untracked_unchanged_partial :
   forall base backup Vb Vk tnb tnk accb acck rhb rhk whb whk hid anc B0,
@@ -32,3 +33,23 @@ Theorem C13_rollback_untracked_unchanged_concrete_partial :
     forall p, p <> s_root -> w_infos w !! p = None -> sonode_eqv (Vp pa w' !! p) (Vp pa w !! p).
 Proof. exact rollback_untracked_concrete. Qed.
 Print Assumptions C13_rollback_untracked_unchanged_concrete_partial.
+
+Theorem C13_rollback_untracked_unchanged_documented_partial :
+  forall pa h, prefix_ok pa -> hidden_ok h ->
+  forall B0, links_ok clean clean (acc_h pa h) (acc_p (pk_h pa h)) B0 -> all_small B0 -> swf B0 ->
+  loc_ok (hid_h h) (anc_h h) B0 ->
+  forall w, Inv (VpH pa h) (Vp (pk_h pa h)) B0 w ->
+  exists w', b_rollback (cfg_base (dcfg pa h)) (cfg_backup (dcfg pa h)) w = (MOk tt, w') /\
+    forall p, p <> s_root -> w_infos w !! p = None -> sonode_eqv (VpH pa h w' !! p) (VpH pa h w !! p).
+Proof. exact rollback_untracked_documented. Qed.
+Print Assumptions C13_rollback_untracked_unchanged_documented_partial.
+
+Theorem C13_rollback_untracked_unchanged_new_partial :
+  forall h, hidden_ok h ->
+  forall B0, links_ok tn_0 clean (acc_0 h) (acc_p h) B0 -> all_small B0 -> swf B0 ->
+  loc_ok (hid_h h) (anc_h h) B0 ->
+  forall w, Inv (V0H h) (Vp h) B0 w ->
+  exists w', b_rollback (cfg_base (ncfg h)) (cfg_backup (ncfg h)) w = (MOk tt, w') /\
+    forall p, p <> s_root -> w_infos w !! p = None -> sonode_eqv (V0H h w' !! p) (V0H h w !! p).
+Proof. exact rollback_untracked_new. Qed.
+Print Assumptions C13_rollback_untracked_unchanged_new_partial.
